@@ -368,6 +368,14 @@ fn run_outbound(order: &[usize], sizes: &[usize], seed: u64) -> Option<OutObs> {
             while let Some(d) = sim::next_dgram(&mut net_rx, Duration::from_millis(30)).await {
                 sent.push(d);
             }
+            // the close-time alert travels under the same key: its nonce must be fresh as well
+            a.dtls.close();
+            let mut alerts = vec![];
+            while let Some(d) = sim::next_dgram(&mut net_rx, Duration::from_millis(200)).await {
+                if d.src_side() == Some(Side::A) {
+                    alerts.push(d);
+                }
+            }
             // judge every datagram A emitted
             let mut seen = std::collections::BTreeSet::new();
             let mut plain: Vec<Vec<u8>> = vec![];
@@ -395,6 +403,20 @@ fn run_outbound(order: &[usize], sizes: &[usize], seed: u64) -> Option<OutObs> {
                 match wire::dtls_open(&crypto.client_write_cipher, &crypto.keys.client_write_iv, 23, r.epoch, r.seq, &r.body) {
                     Some(p) => plain.push(p),
                     None => o.problems.push(("record_does_not_authenticate".into(), format!("epoch {} seq {}", r.epoch, r.seq))),
+                }
+            }
+            for d in &alerts {
+                for r in wire::dtls_records(&d.data) {
+                    if r.ctype == 21 {
+                        o.records += 1;
+                        if r.epoch == 0 {
+                            o.problems.push(("close_alert_sent_in_clear".into(), String::new()));
+                        } else if !seen.insert((r.epoch, r.seq)) {
+                            o.problems.push(("close_alert_reuses_sequence_number".into(), format!("alert record epoch {} seq {} was already used by an application record under the same key", r.epoch, r.seq)));
+                        } else if wire::dtls_open(&crypto.client_write_cipher, &crypto.keys.client_write_iv, 21, r.epoch, r.seq, &r.body).is_none() {
+                            o.problems.push(("close_alert_does_not_authenticate".into(), String::new()));
+                        }
+                    }
                 }
             }
             // every submitted payload is the concatenation of consecutive records' plaintexts (in some task order)
